@@ -115,5 +115,98 @@ def nontrivial(c):
     return None
 
 
+TWIN = "import pytest\n\n\n@pytest.fixture\ndef %s(%s)%s:\n    return 1\n"
+
+
+def explore_processes(r, rnd, n):
+    """protocol part: the same workspace served by several server PROCESSES with different numbers of scan
+    workers, and again after unmodified documents were re-opened (which re-registers their definitions last):
+    every snapshot of go-to-definition / references / call hierarchy / symbols must be the same.  The
+    workspaces have same-named fixtures at the SAME line and column in several conftest.py files (root, package,
+    sibling package) and no imports (what a conftest-imported name denotes is the listed order finding)"""
+    import json, os, shutil, tempfile
+    import core, lsp
+    binp = core.build_binary()
+    base = os.path.realpath(tempfile.mkdtemp(prefix="verif_c08_"))
+    bad, nsnap = [], 0
+    try:
+        for i in range(n):
+            root = os.path.join(base, "w%d" % i)
+            name = rnd.choice(["db", "client", "fx_a"])
+            other = rnd.choice(["cfg", "srv"])
+            files = {"conftest.py": TWIN % (name, "", rnd.choice(["", " -> int"])) + "\n@pytest.fixture\ndef %s(%s):\n    return 2\n" % (other, name),
+                     "pkg/conftest.py": TWIN % (name, rnd.choice([name, ""]), "") + "\n@pytest.fixture\ndef %s(%s):\n    return 3\n" % (other, name),
+                     "pkg2/conftest.py": TWIN % (name, "", " -> str"),
+                     "test_root.py": "def test_r(%s, %s):\n    pass\n" % (name, other),
+                     "pkg/test_pkg.py": "def test_p(%s):\n    pass\n\ndef test_q(%s, %s):\n    pass\n" % (name, other, name),
+                     "pkg2/test_pkg2.py": "def test_s(%s):\n    pass\n" % name}
+            for rel, tt in files.items():
+                q = os.path.join(root, rel)
+                os.makedirs(os.path.dirname(q), exist_ok=True)
+                open(q, "w").write(tt)
+
+            def snapshot(srv):
+                out = {}
+                for rel in sorted(files):
+                    q = os.path.join(root, rel)
+                    if rel.endswith("conftest.py"):
+                        for s in srv.document_symbol(q) or []:
+                            ln, ch = s["selectionRange"]["start"]["line"], s["selectionRange"]["start"]["character"]
+                            key = "%s:%s@%d" % (rel, s["name"], ln)
+                            refs = sorted((os.path.relpath(lsp.uri_to_path(x["uri"]), root), x["range"]["start"]["line"], x["range"]["start"]["character"])
+                                          for x in (srv.references(q, ln, ch, include_declaration=False) or []))
+                            out[key + " references"] = refs
+                            for it in (srv.prepare_call_hierarchy(q, ln, ch) or []):
+                                out[key + " incoming"] = sorted((os.path.relpath(lsp.uri_to_path(c["from"]["uri"]), root), c["from"]["range"]["start"]["line"])
+                                                                for c in (srv.incoming_calls(it) or []))
+                                out[key + " outgoing"] = sorted((os.path.relpath(lsp.uri_to_path(c["to"]["uri"]), root), c["to"]["selectionRange"]["start"]["line"], c["to"]["name"])
+                                                                for c in (srv.outgoing_calls(it) or []))
+                    else:
+                        for ln, line in enumerate(files[rel].split("\n")):
+                            if line.startswith("def test"):
+                                for nm in (name, other):
+                                    col = line.find(nm, line.find("("))
+                                    if col >= 0:
+                                        d = srv.definition(q, ln, col)
+                                        d = d[0] if isinstance(d, list) and d else d
+                                        out["%s:%d:%d definition" % (rel, ln, col)] = d and (os.path.relpath(lsp.uri_to_path(d["uri"]), root), d["range"]["start"]["line"])
+                out["workspace symbols"] = sorted((os.path.relpath(lsp.uri_to_path(x["location"]["uri"]), root), x["name"], x["location"]["range"]["start"]["line"])
+                                                  for x in (srv.workspace_symbol("") or []))
+                return out
+            snaps = []
+            for threads in (1, 8):
+                srv = lsp.Server(binp, root=root, timeout=30, env={"RAYON_NUM_THREADS": str(threads)})
+                try:
+                    srv.wait_for_log("Workspace scan complete", timeout=30)
+                    snaps.append(("%d scan workers, after the scan" % threads, snapshot(srv)))
+                    for rel in rnd.sample(sorted(f for f in files if f.endswith("conftest.py")), 2):
+                        srv.open(os.path.join(root, rel), files[rel])
+                        snaps.append(("%d scan workers, after re-opening %s unmodified" % (threads, rel), snapshot(srv)))
+                finally:
+                    try:
+                        srv.shutdown()
+                    except Exception:
+                        pass
+            nsnap += len(snaps)
+            ref_name, ref = snaps[0]
+            for nm, sn in snaps[1:]:
+                if sn != ref:
+                    diff = sorted(k for k in set(sn) | set(ref) if sn.get(k) != ref.get(k))[:6]
+                    bad.append({"why": "the same workspace is answered differently by another server process / after re-opening an unmodified document",
+                                "files": files, "snapshot_a": ref_name, "snapshot_b": nm,
+                                "differing": {k: [ref.get(k), sn.get(k)] for k in diff}})
+                    break
+    finally:
+        shutil.rmtree(base, ignore_errors=True)
+    return bad, nsnap
+
+
 def run(r):
+    import random
+    quick = r.tier == "quick"
+    bad, nsnap = explore_processes(r, random.Random(r.seed * 37 + 8), 4 if quick else 30)
+    for k, b in enumerate(bad[:2]):
+        r.violation(dict({"property": PID, "part": "server processes"}, **b), "proc_%d" % k)
+    r.notes.append("protocol part: %d snapshots over stdio" % nsnap)
+    r.extra_coverage = {"server_snapshots": nsnap}
     return runner.drive_ws(r, sys.modules[__name__])
